@@ -70,6 +70,7 @@ def bootstrap(coop_locks=True):
     simnet.install()
     import uuid
     uuid.uuid4 = _uuid4
+    os.getpid = lambda: 4242          # process ids end up in temp-file names; keep runs replayable
     import time as _time
     import http.cookiejar
     http.cookiejar.time = _SimTime(_time)
